@@ -84,7 +84,7 @@ class C09(Prop):
     anchors = ["aioswitcher.api:SwitcherType1Api.get_state", "aioswitcher.api:SwitcherType2Api.get_shutter_state",
                "aioswitcher.api:SwitcherType2Api._get_breeze_state", "aioswitcher.api:SwitcherType2Api.control_breeze_device",
                "aioswitcher.api:SwitcherApi.stop", "aioswitcher.api:SwitcherType2Api.set_position"]
-    min_evaluations = {"quick": 5_000, "thorough": 100_000}
+    min_evaluations = {"quick": 15_000, "thorough": 150_000}
     budget_s = {"quick": 60, "thorough": 900}
 
     def selftest(self):
@@ -110,7 +110,7 @@ class C09(Prop):
                     if i % nshards == shard:
                         yield {"shape": sh[0], "step": step, "fault": list(fault), "enumerated": True}
                     i += 1
-        n_rand = {"quick": 6_000, "thorough": 300_000}[tier]
+        n_rand = {"quick": 40_000, "thorough": 400_000}[tier]
         for j in range(n_rand):
             if i % nshards == shard:
                 r = env.rng("C09", seed, j)
